@@ -476,6 +476,12 @@ pub fn child_c20(kind: usize, order: usize, pending: usize) {
     let (rtx, rrx) = std::sync::mpsc::channel::<()>();
     let (dtx, drx) = std::sync::mpsc::channel::<()>();
     let reader = std::thread::spawn(move || {
+        if kind == 8 || kind == 9 {
+            // the late destructor is the reader in these kinds: nobody else may hold the epoch back
+            rtx.send(()).unwrap();
+            drx.recv().unwrap();
+            return true;
+        }
         let g = cs();
         let s = shared().load(SeqCst, &g);
         assert!(!s.is_null());
